@@ -4,6 +4,7 @@ import HeraProofs.Props.C16
 import HeraProofs.Props.C09
 import HeraProofs.Props.C07b
 import HeraProofs.Props.C07c
+import HeraProofs.Props.C07d
 open Hera
 #print axioms C07_lexer_terminates
 #print axioms C07_token_progress
@@ -21,3 +22,7 @@ open Hera
 #print axioms Parse.progLoop_ok
 #print axioms Parse.C07_parser_never_stuck
 #print axioms Parse.C07_parser_total
+#print axioms Parse.argStep_msgs
+#print axioms Parse.argLoop_msgs
+#print axioms Parse.matchArglist_none_lt
+#print axioms Parse.C07_dropped_op_reports
